@@ -77,6 +77,8 @@ type TimeBucketInfo struct {
 	elementTypes []EnumElementType
 
 	once sync.Once
+	// vrlOnce guards the lazy computation of variableRecordLength (several writers share one TimeBucketInfo)
+	vrlOnce sync.Once
 }
 
 func AlignedSize(unalignedSize int) (alignedSize int) {
@@ -228,10 +230,12 @@ func (f *TimeBucketInfo) GetVariableRecordLength() int32 {
 	const intervalTicksLenBytes = 4
 	f.once.Do(f.initFromFile)
 
-	if f.recordType == VARIABLE && f.variableRecordLength == 0 {
-		// Variable records use the raw element sizes plus a 4-byte trailer for interval ticks
-		f.variableRecordLength = int32(f.getFieldRecordLength()) + intervalTicksLenBytes
-	}
+	f.vrlOnce.Do(func() {
+		if f.recordType == VARIABLE && f.variableRecordLength == 0 {
+			// Variable records use the raw element sizes plus a 4-byte trailer for interval ticks
+			f.variableRecordLength = int32(f.getFieldRecordLength()) + intervalTicksLenBytes
+		}
+	})
 	return f.variableRecordLength
 }
 
@@ -327,8 +331,14 @@ func (f *TimeBucketInfo) readHeader(path string) (err error) {
 func (f *TimeBucketInfo) load(hp *Header, path string) {
 	f.version = hp.Version
 	f.description = string(bytes.Trim(hp.Description[:], "\x00"))
-	f.Year = int16(hp.Year)
-	f.Path = filepath.Clean(path)
+	// Year and Path are set when the catalog is loaded and are read by other goroutines without going
+	// through f.once (e.g. Directory.GetLatestYearFile): only store them when the header disagrees
+	if y := int16(hp.Year); f.Year != y {
+		f.Year = y
+	}
+	if p := filepath.Clean(path); f.Path != p {
+		f.Path = p
+	}
 	f.IsRead = true
 	f.timeframe = time.Duration(hp.Timeframe)
 	f.nElements = int32(hp.NElements)
